@@ -1,6 +1,8 @@
 """Generator of JDF programs around the runtime limits (C24).
 A program is a list of functions; a function = (nlocals_extra, flows);
-a flow = (access in 'R','W','RW','C', deps) ; a dep = (dir 'i'/'o', guard 'u'/'b'/'t').
+a flow = (access in 'R','W','RW','C', deps) ; a dep = (dir 'i'/'o', guard 'u'/'b'/'t') or
+(dir, guard, L, CT, CF): L local definitions "[ i0 = 0 .. 1, … ]" at the dependency level, CT / CF in front
+of the call of the true / false branch (only where the target is a task).
 One Python structure, two printers: JDF text and the one-line model case."""
 
 def jdf_text(prog, malformed=None):
@@ -17,7 +19,9 @@ def jdf_text(prog, malformed=None):
             name = "X%d" % xi
             kw = {"R": "READ", "W": "WRITE", "RW": "RW", "C": "CTL"}[acc]
             lines = []
-            for di, (d, g) in enumerate(deps):
+            for di, dep in enumerate(deps):
+                d, g = dep[0], dep[1]
+                nl, nct, ncf = ldefs(dep)
                 arrow = "<-" if d == "i" else "->"
                 cond = "(k %% 97) == %d" % di
                 off = ("-%d" if d == "i" else "+%d")
@@ -32,6 +36,16 @@ def jdf_text(prog, malformed=None):
                     # memory reference; a ternary names memory on one side and a task on the other
                     # (two memory references in one ternary make ptgpp emit a duplicate accessor)
                     tgt1, tgt2 = "A(k,0)", "%s %s(k%s)" % (name, fn, off % 1)
+                if nl or nct or ncf:
+                    # local definitions: every defined name is used in the call it scopes over
+                    sgn = "-" if d == "i" else "+"
+                    dl = ("[ %s ] " % ", ".join("i%d = 0 .. 1" % j for j in range(nl))) if nl else ""
+                    iuse = "".join("%si%d" % (sgn, j) for j in range(nl))
+                    def call(t, n, pre):
+                        cl = ("[ %s ] " % ", ".join("%s%d = 0 .. 1" % (pre, j) for j in range(n))) if n else ""
+                        return cl + t[:-1] + iuse + "".join("%s%s%d" % (sgn, pre, j) for j in range(n)) + ")"
+                    tgt1, tgt2 = call(tgt1, nct, "m"), call(tgt2, ncf, "n")
+                    arrow = arrow + " " + dl.rstrip() if dl else arrow
                 if g == "u":
                     lines.append("%s %s" % (arrow, tgt1))
                 elif g == "b":
@@ -67,13 +81,22 @@ def jdf_text(prog, malformed=None):
     return txt
 
 
+def ldefs(dep):
+    return tuple(dep[2:5]) if len(dep) >= 5 else (0, 0, 0)
+
+
+def dep_token(dep):
+    l = ldefs(dep)
+    return dep[0] + dep[1] + ((".%d.%d.%d" % l) if any(l) else "")
+
+
 def case_text(prog, malformed=None):
     """one-line model case: M | nloc : acc deps ; acc deps ; ... / nloc : ...   deps as e.g. iu ib it ou"""
     fs = []
     for (nloc, flows) in prog:
         fl = []
         for (acc, deps) in flows:
-            fl.append(acc + " " + " ".join(d + g for (d, g) in deps))
+            fl.append(acc + " " + " ".join(dep_token(dep) for dep in deps))
         fs.append("%d : %s" % (nloc, " ; ".join(fl)))
     return "%s | %s" % (malformed or "ok", " / ".join(fs))
 
@@ -89,6 +112,10 @@ def parse_case(line):
             w = x.split()
             if not w:
                 continue
-            flows.append((w[0], [(t[0], t[1]) for t in w[1:]]))
+            deps = []
+            for t in w[1:]:
+                x = t.split(".")
+                deps.append((t[0], t[1]) if len(x) == 1 else (t[0], t[1], int(x[1]), int(x[2]), int(x[3])))
+            flows.append((w[0], deps))
         prog.append((int(nl), flows))
     return (None if mal == "ok" else mal), prog
